@@ -1568,8 +1568,10 @@ class ForAll(BinaryOperator):
     @property
     @lru_cache(maxsize=None)
     def condition_unique_variable_ids(self) -> List[int]:
+        # (a predicate call is a variable too, its value under one universal value is not a binding of the row)
         return [v.id_ for v in self.condition._unique_variables_.difference(self.left._unique_variables_)
-                if not isinstance(v.value, Literal)]
+                if not isinstance(v.value, Literal)
+                and not (isinstance(v.value, Variable) and v.value._predicate_type_)]
 
     @lru_cache(maxsize=None)
     def _required_variables_from_child_(self, child: Optional[SymbolicExpression] = None, when_true: bool = True):
